@@ -5,6 +5,9 @@ package main
 import (
 	"fmt"
 	"go/ast"
+	"os"
+	"path/filepath"
+	"regexp"
 	"strings"
 )
 
@@ -118,9 +121,25 @@ func emitConstFacts(repo string) (string, error) {
 	c.leafFacts()
 	c.urlPathFacts()
 	c.treeFacts()
-	if len(c.errs) > 0 {
-		return "", fmt.Errorf("%d anchor(s) missing:\n  %s", len(c.errs), strings.Join(c.errs, "\n  "))
+	// the documented text of every constant (fallback for the ones whose anchor is gone)
+	documented := map[string]string{}
+	var docOrder []string
+	if documentedDir != "" {
+		if raw, err := os.ReadFile(filepath.Join(documentedDir, "ConstFacts.lean")); err == nil {
+			for _, blk := range strings.Split(string(raw), "\n\n/-- ")[1:] {
+				blk = "/-- " + strings.TrimSuffix(strings.TrimSpace(strings.Split(blk, "\nend Flamego.Gen")[0]), "\n")
+				if m := regexp.MustCompile(`(?m)^def (\w+) :`).FindStringSubmatch(blk); m != nil {
+					documented[m[1]] = blk
+					docOrder = append(docOrder, m[1])
+				}
+			}
+		}
 	}
+	if len(c.errs) > 0 && len(documented) == 0 {
+		return "", fmt.Errorf("%d anchor(s) missing (and no documented snapshot to fall back on):\n  %s", len(c.errs), strings.Join(c.errs, "\n  "))
+	}
+	// failures after the last add belong to facts that were never added
+	trailing := strings.Join(c.pending, "; ")
 	var b strings.Builder
 	b.WriteString("-- Constants read from the Go source by translator/constfacts*.go (one per literal site).\n")
 	b.WriteString("-- Strings are byte lists (`List UInt8`); the text is repeated in the comment for the reader.\n")
@@ -153,7 +172,40 @@ func emitConstFacts(repo string) (string, error) {
 			return "", fmt.Errorf("internal: fact %s has an unsupported type", f.name)
 		}
 		shown = strings.ReplaceAll(strings.ReplaceAll(shown, "-/", "- /"), "/-", "/ -")
+		if why, isBad := c.bad[f.name]; isBad {
+			why = strings.ReplaceAll(strings.ReplaceAll(why, "-/", "- /"), "/-", "/ -")
+			unregeneratedFacts = append(unregeneratedFacts, unregenerated{"ConstFacts", f.name, f.group, why})
+			if doc, ok := documented[f.name]; ok && !structuralFacts[f.name] {
+				fmt.Fprintf(&b, "\n-- NOT REGENERATED (documented value kept): %s\n%s\n", why, doc)
+				continue
+			}
+			if typ == "String" {
+				val = leanStr("unknown: anchor not found")
+			}
+			fmt.Fprintf(&b, "\n-- NOT REGENERATED and no fallback: %s", why)
+		}
 		fmt.Fprintf(&b, "\n/-- [%s] %s%s -/\ndef %s : %s := %s\n", f.group, f.site, shown, f.name, typ, val)
+	}
+	// constants of the documented snapshot that were never added (their extraction gave up before `add`)
+	for _, n := range docOrder {
+		if seen[n] {
+			continue
+		}
+		why := trailing
+		if why == "" {
+			why = strings.Join(c.errs, "; ")
+		}
+		why = strings.ReplaceAll(strings.ReplaceAll(why, "-/", "- /"), "/-", "/ -")
+		grp := ""
+		if m := regexp.MustCompile(`^/-- \[(\w+)\]`).FindStringSubmatch(documented[n]); m != nil {
+			grp = m[1]
+		}
+		unregeneratedFacts = append(unregeneratedFacts, unregenerated{"ConstFacts", n, grp, "not extracted: " + why})
+		if structuralFacts[n] {
+			fmt.Fprintf(&b, "\n-- NOT REGENERATED and no fallback: %s\n/-- [%s] anchor not found -/\ndef %s : String := %s\n", why, grp, n, leanStr("unknown: anchor not found"))
+			continue
+		}
+		fmt.Fprintf(&b, "\n-- NOT REGENERATED (documented value kept): %s\n%s\n", why, documented[n])
 	}
 	b.WriteString("\nend Flamego.Gen\n")
 	return b.String(), nil
